@@ -34,6 +34,16 @@ def corpus():
     d = N.new_conf(); d['groups'] = {'Netspoc-g0': ['10.1.1.14', '10.1.1.15', '10.1.1.16'], 'Netspoc-g0-1': ['10.1.1.12', '10.1.1.13']}
     d['policies']['Netspoc-v1'] = [R('r9', N.GP + 'Netspoc-g0', '10.1.1.30', 'ANY', seq=40, action='DROP'), R('r2', N.GP + 'Netspoc-g0-1', '10.1.1.21', 'ANY', seq=30)]; N.finish(d)
     out.append(dict(tgt=t, dev=d, edits=['corpus-group-id-clash-2']))
+    # two rules share a group on the manager, the target splits them; the manager also holds a group with the content of the second
+    # target group that only a rule to be deleted uses (a later DELETE of that group must not hit a group that was just re-used)
+    t = N.new_conf(); t['groups'] = {'Netspoc-g0': ['10.1.1.10', '10.1.1.20', '10.1.1.30'], 'Netspoc-g1': ['10.1.1.10', '10.1.1.20', '10.1.1.40']}
+    t['policies']['Netspoc-v1'] = [R('r1', N.GP + 'Netspoc-g0', '10.2.1.10', 'ANY'), R('r2', N.GP + 'Netspoc-g1', '10.2.1.11', 'ANY', seq=30)]; N.finish(t)
+    d = N.new_conf(); d['groups'] = {'Netspoc-g0': ['10.1.1.10', '10.1.1.20'], 'Netspoc-g5': ['10.1.1.10', '10.1.1.20', '10.1.1.40']}
+    d['policies']['Netspoc-v1'] = [R('r1', N.GP + 'Netspoc-g0', '10.2.1.10', 'ANY'), R('r2', N.GP + 'Netspoc-g0', '10.2.1.11', 'ANY', seq=30),
+                                   R('r3', N.GP + 'Netspoc-g5', '10.2.1.12', 'ANY', seq=40)]; N.finish(d)
+    out.append(dict(tgt=t, dev=d, edits=['corpus-shared-group-split-with-equal-leftover']))
+    d2 = N.copy_conf(d); d2['policies']['Netspoc-v1'] = d2['policies']['Netspoc-v1'][:2]; N.finish(d2); d2['groups']['Netspoc-g5'] = ['10.1.1.10', '10.1.1.20', '10.1.1.40']
+    out.append(dict(tgt=t, dev=d2, edits=['corpus-shared-group-split-with-unused-equal-leftover']))
     return out
 
 
